@@ -39,10 +39,10 @@ Proof. exact exec_order. Qed.
 Theorem C15_order : forall hs path,
   enters (rtrace hs path) = zseq 0 (length (enters (rtrace hs path))) /\
   StronglySorted Z.lt (enters (rtrace hs path)).
-Proof. exact (fun hs path => conj (proj1 (ref_order hs path)) (proj1 (proj2 (ref_order hs path)))). Qed.
+Proof. exact ref_enters_order. Qed.
 
 Theorem C15_nesting : forall hs path, StronglySorted (fun a b => b <= a) (nextrets (rtrace hs path)).
-Proof. exact (fun hs path => proj1 (proj2 (proj2 (ref_order hs path)))). Qed.
+Proof. exact ref_nesting. Qed.
 
 Theorem C15_next_effective_once : forall hs path t1 i t2,
   rtrace hs path = t1 ++ ENextRet i :: t2 -> enters t2 = [].
